@@ -235,14 +235,24 @@ def check_decl(dc, st, tier, only=None):
 
 def run(tier):
     st = ea.run(MODULE, tier)
+    from mc import sched_c18
+    th = sched_c18.run(tier)           # two threads deriving expressions at the same time
+    st.merge(th)
+    st.notes.extend(th.notes)
     cov = ea.coverage(st, 'flat declarations of <=%d components over Int(1), Int(2), Int(3 signed little), Bits runs 3+5/4+4/1+7/7+1/12+4/3+2+3, Data constant/by field/'
                           'by expression/by callable/bytes marker (incl. a marker containing ".")/marker kept/regex kept/EOS; patterns = concrete packets parsed from the '
                           'corpus (metacharacter-valued first) x every subset of fixed fields; corpus = all strings up to the bound over the base alphabet and '
                           'over regex metacharacters (\\ ] ^ - . \\n [ $ * ( ) plus one metacharacter at every position of longer strings; '
-                          'states = distinct (declaration, fixed subset, generated expression)' % (2 if tier == 'quick' else 3),
-                      {'patterns': st.n.get('patterns', 0), 'filter_comparisons': st.n.get('filters', 0)})
-    return {'stats': st, 'coverage': cov, 'assumptions': ['byte strings ended by a regex delimiter that is not kept in the value are excluded by the statement']}
+                          'states = distinct (declaration, fixed subset, generated expression); threads: all schedules with <=%d preemption(s) of two threads '
+                          'that each derive the expression of their own pattern and apply it to a corpus (two pattern pairs), scheduling points = source '
+                          'lines inside bisturi' % (2 if tier == 'quick' else 3, 1 if tier == 'quick' else 2),
+                      {'patterns': st.n.get('patterns', 0), 'filter_comparisons': st.n.get('filters', 0), 'thread_schedules': st.n.get('thread_schedules', 0),
+                       'thread_scheduling_points': st.n.get('thread_points', 0)})
+    return {'stats': st, 'coverage': cov, 'harness_errors': [n for n in st.notes if n.startswith('HARNESS')], 'assumptions': ['byte strings ended by a regex delimiter that is not kept in the value are excluded by the statement']}
 
 
 def replay(case):
+    if 'schedule' in case:
+        from mc import sched_c18
+        return sched_c18.replay(case)
     return ea.replay_decl(sys.modules[__name__], case)
